@@ -482,6 +482,61 @@ fn replay() {
         return (len(failed) > 0), path, '; '.join(f'{p}: {"FAILED" if okk is False else "passed"}' for p, (okk, _) in res.items())
 
 
+def stack_check(world):
+    """(d) supplementary native measurement: the deepest pointer chain the decreasing-pointer bound permits (8,190 hops in a
+    16 KiB message: 2 octets per hop below offset 0x4000) is decoded in release on a 2 MiB thread (tokio's worker default)"""
+    src = '''use super::*;
+fn build() -> (Vec<u8>, usize) {
+    // header: id 0x1234, response, ancount = 2
+    let mut m: Vec<u8> = vec![0x12, 0x34, 0x80, 0, 0, 0, 0, 2, 0, 0, 0, 0];
+    // answer 1: root name, unknown type 0xff00, class IN, ttl 0, RDATA = a root name followed by a chain of pointers,
+    // each to the previous one, up to offset 0x4000 (the highest a pointer can address)
+    m.extend_from_slice(&[0, 0xff, 0x00, 0, 1, 0, 0, 0, 0]);
+    let lenpos = m.len(); m.extend_from_slice(&[0, 0]);
+    let start = m.len();
+    m.push(0);
+    let mut prev = start; let mut hops = 0usize;
+    while m.len() + 2 <= 0x4000 { let at = m.len(); m.push(0xC0 | ((prev >> 8) as u8)); m.push((prev & 0xff) as u8); prev = at; hops += 1; }
+    let l = m.len() - start; m[lenpos] = (l >> 8) as u8; m[lenpos + 1] = (l & 0xff) as u8;
+    // answer 2: name = pointer to the last pointer; A record
+    m.push(0xC0 | ((prev >> 8) as u8)); m.push((prev & 0xff) as u8); hops += 1;
+    m.extend_from_slice(&[0, 1, 0, 1, 0, 0, 0, 0, 0, 4, 1, 2, 3, 4]);
+    (m, hops)
+}
+fn run(stack: usize) -> bool {
+    // a child process per probe would be cleaner, but an overflow aborts the whole test binary: probe only upwards of 2 MiB here
+    let (m, _) = build();
+    let h = std::thread::Builder::new().stack_size(stack).spawn(move || Message::from_octets(&m).map(|x| x.answers.len())).unwrap();
+    h.join().ok() == Some(Ok(2))
+}
+#[test]
+fn replay() {
+    // an overflow aborts the process, so every probe is a child run of this test binary
+    if let Ok(s) = std::env::var("VERIF_STACK_PROBE") {
+        let ok = run(s.parse().unwrap());
+        std::process::exit(if ok { 0 } else { 3 });
+    }
+    let (m, hops) = build();
+    println!("VERIF-STACK hops {} octets {}", hops, m.len());
+    let probe = |kib: usize| std::process::Command::new(std::env::current_exe().unwrap())
+        .args(["verif_replay::replay", "--nocapture", "--test-threads", "1"]).env("VERIF_STACK_PROBE", (kib * 1024).to_string())
+        .stdout(std::process::Stdio::null()).stderr(std::process::Stdio::null()).status().map(|s| s.code() == Some(0)).unwrap_or(false);
+    let mut least = None;
+    for kib in [2048usize, 1984, 1920, 1856, 1792, 1728, 1664, 1600, 1536] { if probe(kib) { least = Some(kib); } else { break; } }
+    println!("VERIF-STACK least_ok_kib {:?}", least);
+    assert!(least.is_some(), "VERIF-VIOLATED maximal pointer chain did not decode to a two-answer message on a 2 MiB thread");
+}
+'''
+    res = native_test(world, 'dns-types', 'crates/dns-types/src/protocol/deserialise.rs', src, 'replay', profiles=['release'])
+    import re as _re
+    out = {}
+    for prof, (okk, txt) in res.items():
+        m = _re.search(r'VERIF-STACK hops (\d+)', txt)
+        m2 = _re.search(r'VERIF-STACK least_ok_kib Some\((\d+)\)', txt)
+        out[prof] = {'passed': okk, 'hops': int(m.group(1)) if m else None, 'least_stack_kib_that_suffices': int(m2.group(1)) if m2 else None}
+    return out, src
+
+
 def harnesses(world, tier, seed):
     q = tier == 'quick'
     nn = 8 if q else 10; B = 5 if q else 6; R = 5 if q else 8
@@ -504,4 +559,10 @@ def harnesses(world, tier, seed):
                         bounds={'first name': '3 labels of 62..63 octets', 'second name': 'one label of 58..63 octets followed by a pointer to the first', 'expanded total': '249..257 around the 255 limit'},
                         expected_classes=('Ok', 'Ok-255', 'Err:DomainTooLong')),
     ]
-    return hs, (1500 if q else 5400), None
+    sc, src = stack_check(world)
+    extra = {'coverage': {'stack_check_native': sc, 'stack_check_note': 'supplementary native run (release profile, as the property\'s observation point says; not solver-based): a message whose second answer name follows the maximal backward pointer chain is decoded by Message::from_octets on threads of decreasing stack size, one child process per size; the solver-side bound is the recursion monitor (each hop strictly lower, <= 0x3fff)'},
+             'validated': sum(1 for v in sc.values() if v.get('passed'))}
+    if sc.get('release', {}).get('passed') is False:
+        p = save_replay('C03', 'stack-check', src, {'what': 'maximal pointer chain overflows a 2 MiB stack in release'})
+        extra['violations'] = [{'harness': 'stack-check-native', 'tag': 'stack', 'detail': 'the maximal backward pointer chain overflows a 2 MiB thread stack in the release profile', 'replay': p, 'reproduced': True}]
+    return hs, (1500 if q else 5400), extra
